@@ -8,6 +8,8 @@ from .. import verdicts as V
 from ..harness import Cfg, Obs
 from ..jobs import Job, register
 from ..refsem import Fail, RefResult, Val
+from typing import List
+
 from ..spec import BASE_EXC, E1, E2, OK, RET_NONE, RET_ZERO, In, Node, OneOf, Rec, Spec, Sw
 from .common import auto_parts, doc, engine_harness
 
@@ -145,6 +147,7 @@ for name, f, goals in [
     ("retry_sibling", C.retry_sibling, ()),
     ("retry_attempts_zero", C.retry_attempts_zero, ()),
     ("oneof_reached_twice", C.oneof_reached_twice, ("oneof_fallback",)),
+    ("oneof_reached_via_nested", C.oneof_reached_via_nested, ("oneof_fallback",)),
 ]:
     _reg("C04", name, f, _c04, goals=goals)
 
@@ -246,6 +249,7 @@ for name, f, goals in [
     ("oneof_shared_inflight", C.oneof_shared_inflight, ("oneof_fallback",)),
     ("oneof_diamond_shared", C.oneof_diamond_shared, ("oneof_fallback",)),
     ("oneof_reached_twice", C.oneof_reached_twice, ("oneof_fallback",)),
+    ("oneof_reached_via_nested", C.oneof_reached_via_nested, ("oneof_fallback",)),
 ]:
     _reg("C10", name, f, _c10, goals=goals)
 
@@ -298,8 +302,15 @@ def _c19(obs: Obs, ref: RefResult, sym: Any) -> Optional[str]:
     return V.saves(obs, ref)
 
 
+def chain_none() -> Spec:
+    """A node whose legitimate final value is None (or 0): it is executed, consumed, and must be saved."""
+    return Spec("chain_none", [Node("A"), Node("B", (("a", In("A")),), kinds=(OK, RET_NONE, RET_ZERO)),
+                               Node("C", (("b", In("B")),))], "A", "C")
+
+
 for name, f, goals in [
     ("chain", C.chain, ()),
+    ("chain_none", chain_none, ()),
     ("rhombus", lambda: C.rhombus(False), ()),
     ("switch_shared_case", C.switch_shared_case, ()),
     ("shared_scopes", shared_scopes, ("oneof_fallback",)),
@@ -408,3 +419,76 @@ for prop, verdict, hang_judged, cfgf, specs in [
     for nm, f in specs:
         _reg(prop, "slow_collab_" + nm, f, verdict, tier="quick", judge_hang=hang_judged, cfg_fn=cfgf, budget=400,
              beh_kw={"dur_nodes": SLOW_DUR[nm]}, extra_syms=SLOW_SYMS + ("node durations only for %s" % sorted(SLOW_DUR[nm]),))
+
+
+# ------------------------------------------------------------------------------------ BaseException from a node body
+# (neither retried, defaulted nor contained by a one-of: it propagates out of chart.run)
+BX = (OK, E1, BASE_EXC)
+for prop, verdict, hang_judged, specs in [
+    ("C01", None, False, [("baseexc_rhombus", lambda: Spec("rhombus_bx", [
+        Node("A"), Node("B", (("a", In("A")),), kinds=BX), Node("C", (("a", In("A")),)),
+        Node("D", (("b", In("B")), ("c", In("C"))))], "A", "D"))]),
+    ("C02", _nothing, True, [("baseexc_oneof", lambda: C.oneof_basic(BX))]),
+    ("C05", _c05, False, [("baseexc_oneof", lambda: C.oneof_basic(BX)),
+                          ("baseexc_rhombus", lambda: Spec("rhombus_bx", [
+                              Node("A"), Node("B", (("a", In("A")),), kinds=BX), Node("C", (("a", In("A")),)),
+                              Node("D", (("b", In("B")), ("c", In("C"))))], "A", "D"))]),
+    ("C10", _c10, False, [("baseexc_oneof", lambda: C.oneof_basic(BX))]),
+]:
+    if verdict is None:
+        from .c01 import verdict as _c01_verdict
+        verdict = _c01_verdict
+    for nm, f in specs:
+        _reg(prop, nm, f, verdict, tier="quick", judge_hang=hang_judged, goals=("ref_fatal",), budget=300)
+
+
+# ------------------------------------------------------------------------------------ plain-DAG family on the engine harness
+# The program is symbolic (binding selectors, as in C06's family F_plain); outcome, arguments and execution counts are
+# checked for every plain DAG of n = 4 nodes under every completion order.  Thorough tier.
+def _family_harness(verdict: Any, n: int = 4) -> Any:
+    def make() -> Any:
+        from ..harness import run_engine, set_pools, untraced
+        from ..refsem import Ref
+        from ..spec import Behaviour
+        from .common import goals_of, summary
+
+        set_pools()
+
+        def h(sym: Any) -> Any:
+            binds: List[List[int]] = [[]]
+            for i in range(1, n):
+                p0 = sym.choice("bind%d_0" % i, i)
+                p1 = sym.choice("bind%d_1" % i, i + 1) - 1
+                if p1 == p0:
+                    sym.assume(False)  # two parameters on one source: C15's recorded finding
+                binds.append([p0] + ([p1] if p1 >= 0 else []))
+            fall = sym.choice("fallible_node", n)  # which node may fail (0 = none)
+            with untraced():
+                nodes = [Node("N0")]
+                for i in range(1, n):
+                    nodes.append(Node("N%d" % i, tuple(("p%d" % j, In("N%d" % b)) for j, b in enumerate(binds[i])),
+                                      kinds=(OK, E1) if i == fall else (OK,)))
+                spec = Spec("plain%d" % n, nodes, "N0", "N%d" % (n - 1))
+            beh = Behaviour(sym, spec, dur_nodes={"N%d" % i for i in range(1, n - 1)})
+            obs = run_engine(spec, beh, Cfg(rev_taskset=sym.bool("rev_taskset")))
+            ref = Ref(spec, beh).run()
+            got = verdict(obs, ref, sym)
+            labels = [x for x in (got if isinstance(got, (list, tuple)) else [got]) if x]
+            if V.hang(obs):
+                labels.insert(0, V.hang(obs))
+            info = {"digest": obs.digest() + [binds, fall], "goals": goals_of(obs, ref), "summary": dict(summary(obs, ref), binds=binds)}
+            return (labels or "ok"), info
+
+        return h
+
+    return make
+
+
+from .c01 import verdict as _c01v  # noqa: E402
+
+for prop, verdict in (("C01", _c01v), ("C03", _c03), ("C04", _c04), ("C05", _c05)):
+    register(Job(prop, "family_plain_n4", _family_harness(verdict), tier="thorough", budget_s=2400,
+                 parts=[{"bind2_0": a, "bind3_0": b, "fallible_node": c} for a in range(2) for b in range(3) for c in range(4)],
+                 goals=("ref_value", "ref_fail"),
+                 doc=doc("family F_plain: 4 nodes, every node has 1-2 Input parameters bound to earlier nodes by symbolic "
+                         "selectors (36 programs); one symbolic node may fail", list(SYMS) + ["binding selectors", "which node is fallible"])))
